@@ -240,6 +240,23 @@ def rsa_private_edited(args, pool_privs):
     return walk(args)
 
 
+NAME_MEMBERS = ("alg", "enc", "kty", "crv", "use", "zip")
+
+
+def nul_in_names(v):
+    if isinstance(v, dict):
+        for k, x in v.items():
+            if k in NAME_MEMBERS and isinstance(x, str) and "\u0000" in x:
+                return True
+            if k == "key_ops" and isinstance(x, list) and any(isinstance(e, str) and "\u0000" in e for e in x):
+                return True
+            if nul_in_names(x):
+                return True
+    elif isinstance(v, list):
+        return any(nul_in_names(x) for x in v)
+    return False
+
+
 def model_scope(op, args, pool_privs):
     """None if the model covers this call, else the reason it is executed on the implementation only"""
     if op == "ossl.roundtrip":
@@ -247,6 +264,8 @@ def model_scope(op, args, pool_privs):
     for k in ("jwk",):
         if k in args and key_lists_nested(args[k]) and op not in ("jws.ver", "jws.ver_io"):
             return "nested key lists are modelled for verification only"
+    if nul_in_names(args):
+        return "a name (alg, enc, kty, crv, use, key_ops, zip) with an embedded NUL: compared as a C string by the library (open finding nul:c-string-compare)"
     if op in ("jwk.thp", "jwk.thp_buf") and not isinstance(args.get("alg"), str):
         return "hash name not a string (the harness then passes NULL, which no caller of the documented API does)"
     if rsa_private_edited(args, pool_privs):
@@ -266,6 +285,20 @@ def p_check(op, args, real):
     return None
 
 
+def rsa15(jwe):
+    try:
+        h = dict(json.loads(G.b64d(jwe["protected"]))) if isinstance(jwe.get("protected"), str) else dict(jwe.get("protected") or {})
+        for l in (jwe.get("unprotected"), jwe.get("header")):
+            if isinstance(l, dict):
+                for k, v in l.items():
+                    h.setdefault(k, v)
+        if h.get("alg") == "RSA1_5":
+            return True
+        return any(isinstance(rc, dict) and (rc.get("header") or {}).get("alg") == "RSA1_5" for rc in (jwe.get("recipients") or []) if isinstance(jwe.get("recipients"), list))
+    except Exception:
+        return True         # undecidable: do not compare key bytes
+
+
 def canon(op, args, r):
     if isinstance(r, dict):
         r = {k: v for k, v in r.items() if k not in ("leak_bytes", "rand_calls", "canary")}
@@ -276,6 +309,10 @@ def canon(op, args, r):
                 z = None
             if z:       # the model deflates into stored blocks
                 r = dict(r, jwe=dict(r["jwe"], ciphertext="<ct>", tag="<tag>"))
+        if op == "jwe.dec_jwk" and isinstance(r.get("v"), dict) and isinstance(r["v"].get("k"), str) and (rsa15(args.get("jwe")) or '"RSA"' in json.dumps(args.get("jwk"))):
+            # RSA1_5 hands out a random content key when the padding is bad (drawn from the tape while it lasts, from the
+            # real generator behind it): its length is comparable, its bytes are not
+            r = dict(r, v=dict(r["v"], k="<%d chars>" % len(r["v"]["k"])))
         if op in ("jws.sig", "jws.sig_io", "jwe.enc", "jwe.enc_jwk", "jwk.gen", "ossl.roundtrip") :
             return {k: v for k, v in r.items() if k in ("ok", "imported", "args_mutated", "refs_changed", "crash", "error")}
     return r
